@@ -40,10 +40,10 @@ type Obs struct {
 	Ename string   `json:"-"`
 }
 
-func okObs() Obs           { return Obs{Res: "ok", Qids: []QidObs{}} }
-func errObs(perr int) Obs  { return Obs{Res: "err", Perr: perr, Qids: []QidObs{}} }
-func toInt(v any) int      { f, _ := v.(float64); return int(f) }
-func toStr(v any) string   { s, _ := v.(string); return s }
+func okObs() Obs          { return Obs{Res: "ok", Qids: []QidObs{}} }
+func errObs(perr int) Obs { return Obs{Res: "err", Perr: perr, Qids: []QidObs{}} }
+func toInt(v any) int     { f, _ := v.(float64); return int(f) }
+func toStr(v any) string  { s, _ := v.(string); return s }
 func toStrs(v any) []string {
 	a, _ := v.([]any)
 	out := make([]string, 0, len(a))
@@ -191,6 +191,9 @@ func (t *Twin) Do(step []any) (Obs, error) {
 	nm := w.NM
 	act := toStr(step[0])
 	F := t.fid(toInt(step[1]))
+	if !F.Used && act != "Attach" {
+		return Obs{}, fmt.Errorf("twin: %v on a fid that is not in use (behaviour not valid for this configuration)", step)
+	}
 	switch act {
 	case "Attach":
 		p := norm(rootPath, strings.Split(nm.Raw(toStr(step[2])), "/"), len(rootPath))
@@ -376,7 +379,7 @@ func (t *Twin) Do(step []any) (Obs, error) {
 
 	case "Write":
 		off, n := toInt(step[2]), toInt(step[3])
-		if F.F == nil {
+		if _, err := os.Lstat(w.Host(F.Path)); F.F == nil || F.Open&3 == 0 || F.Qt == "D" || err != nil {
 			return errObs(0), nil
 		}
 		b := make([]byte, n)
